@@ -40,6 +40,10 @@ pub enum Op {
     EncFrame { w: Workload, frame_number: usize, fill: usize, as_bytes: bool },
     /// write of a stream made elsewhere; sink 0 = `ByteSink`, 1 = `MemSink<u64>`
     Write { w: Workload, sink: u8, precompute: bool },
+    /// write of a stream made elsewhere to a user-defined sink that FAILS at operation
+    /// `at_permille`/1000 of the clean write (what a full disk does); the result is the outcome plus the
+    /// bits accepted before the failure. What the failed call leaves behind is part of the history.
+    WriteFailing { w: Workload, at_permille: u32, sticky: bool },
     /// `parser::stream` on bytes made elsewhere, then re-serialise and decode
     Parse { w: Workload },
     /// `Stream::verify` + `count_bits` of a stream made elsewhere
@@ -52,13 +56,14 @@ impl Op {
             Self::EncStream { .. } => "EncStream",
             Self::EncFrame { .. } => "EncFrame",
             Self::Write { .. } => "Write",
+            Self::WriteFailing { .. } => "WriteFailing",
             Self::Parse { .. } => "Parse",
             Self::Verify { .. } => "Verify",
         }
     }
     pub fn w(&self) -> &Workload {
         match self {
-            Self::EncStream { w } | Self::EncFrame { w, .. } | Self::Write { w, .. } | Self::Parse { w } | Self::Verify { w } => w,
+            Self::EncStream { w } | Self::EncFrame { w, .. } | Self::Write { w, .. } | Self::WriteFailing { w, .. } | Self::Parse { w } | Self::Verify { w } => w,
         }
     }
 }
@@ -130,7 +135,7 @@ fn encode_plain(w: &Workload) -> Result<Stream, String> {
 fn prepare(op: &Op) -> Prepared {
     match op {
         Op::EncStream { .. } | Op::EncFrame { .. } => Prepared::Nothing,
-        Op::Write { w, .. } | Op::Verify { w } => match encode_plain(w) {
+        Op::Write { w, .. } | Op::WriteFailing { w, .. } | Op::Verify { w } => match encode_plain(w) {
             Ok(s) => Prepared::Stream(s),
             Err(e) => Prepared::Failed(e),
         },
@@ -222,6 +227,25 @@ fn perform_inner(op: &Op, prep: Prepared) -> OpResult {
                     Err(e) => OpResult::Err(format!("write: {e}")),
                 }
             }
+        }
+        (Op::WriteFailing { at_permille, sticky, .. }, Prepared::Stream(st)) => {
+            use crate::sinks::{Core, ReqSink};
+            let mut probe = ReqSink(Core::failing(None, false));
+            if let Err(e) = st.write(&mut probe) {
+                return OpResult::Err(format!("counting write: {e}"));
+            }
+            let n = probe.0.ops;
+            let k = (n as u64 * u64::from(*at_permille) / 1000) as usize;
+            let mut sink = ReqSink(Core::failing(Some(k.min(n.saturating_sub(1))), *sticky));
+            let r = st.write(&mut sink);
+            let mut out = match r {
+                Ok(()) => b"ok:".to_vec(),
+                Err(e) => format!("err({e}):").into_bytes(),
+            };
+            let accepted = sink.0.bits_before_error.unwrap_or(sink.0.model.len());
+            out.extend_from_slice(&(accepted as u64).to_le_bytes());
+            out.extend_from_slice(&sink.0.model.to_bytes());
+            OpResult::Bytes(out)
         }
         (Op::Parse { .. }, Prepared::Bytes(b)) => match nomshim::parse_stream(&b) {
             None => OpResult::Err("parser rejected the stream".into()),
@@ -436,10 +460,15 @@ fn gen_op(r: &mut Rng, w: Workload) -> Op {
                 w,
             }
         }
-        8 | 9 => Op::Write {
+        8 => Op::Write {
             w,
             sink: r.below(2) as u8,
             precompute: r.chance(0.4),
+        },
+        9 => Op::WriteFailing {
+            w,
+            at_permille: *r.pick(&[0u32, 100, 500, 900, 990, 999]),
+            sticky: r.chance(0.5),
         },
         10 => Op::Parse { w },
         _ => Op::Verify { w },
@@ -501,7 +530,7 @@ pub fn run(ctx: &crate::RunCtx) -> (Summary, Vec<Violation>) {
     let mut sum = Summary::new(
         "a case = one history: 2..8 (thorough 2..12) calls issued one at a time by a seeded sequencer to 1..3 long-lived caller threads; \
          calls are stream-level encodes through a scripted source (also failing ones), frame-level encodes, writes to ByteSink / MemSink<u64> \
-         with or without precomputed frames, parse+re-serialise+decode, verify; 80% of the calls take the arguments of an earlier call with ONE \
+         with or without precomputed frames, writes to a user sink that fails part-way, parse+re-serialise+decode, verify; 80% of the calls take the arguments of an earlier call with ONE \
          neighbouring change (block smaller/larger, fewer/more channels, narrower/wider samples, Rice cap 14<->0, fixed order 4<->0, Tukey alpha \
          +-1..300 ulp, other window, LPC order/precision, a switch, length, signal, order selection, delivery mode, a failing source) or repeat an \
          earlier call exactly. Every call's result is compared with the same call alone on a fresh thread. distinct = distinct history hashes; \
